@@ -2,7 +2,7 @@
    monitor of C01 applied to the IMPLEMENTATION's observations. *)
 From Coq Require Import ZArith List Bool.
 From Synnax Require Import Common.Base Cesium.Store Cesium.IndexSearch Cesium.Distance Cesium.Stamp
-     Cesium.UnaryIter Cesium.UnaryWrite Cesium.Read.
+     Cesium.UnaryIter Cesium.UnaryWrite Cesium.Read Cesium.LayoutOk.
 Import ListNotations.
 Local Open Scope Z_scope.
 
@@ -117,3 +117,9 @@ Definition violations (cs : list case_t) : list nat := find_idx violates cs.
 Definition model_dump (c : case_t) :=
   let '(st, _) := model_run (init_state (k_cap c) (k_chans c)) (k_ops c) in
   (model_all c, map (fun ch => (c_key ch, c_doms ch, c_tail ch)) (s_db st)).
+
+(* does every channel's final layout of the model satisfy the decidable hypothesis of
+   C01_read_exact_partial? — reported as coverage of the guard *)
+Definition in_guard (c : case_t) : bool :=
+  let '(st, _) := model_run (init_state (k_cap c) (k_chans c)) (k_ops c) in
+  forallb (fun ch => let '(P, D, _) := chan_layout (s_db st) (c_key ch) in layout_okb P D) (s_db st).
